@@ -25,7 +25,7 @@ Theorem tr_checkActive_equiv : forall (reach : bool) (nw : Z) (a : adapter),
   let '(a', first, need) := check_active reach nw a in Return (first, need, ast a', tB a').
 Proof.
   intros reach nw a Hn HS HB HC. unfold time_ok in *.
-  unfold tr_checkActive, check_active.
+  unfold tr_checkActive, check_active. fold_bool.
   destruct thresholds as (-> & -> & -> & -> & ->).
   rewrite !wrapS64_id by lia.
   destruct a as [e st f lf sn ts tb tc gf]. cbn [ast fc lfc sc tS tB tC] in *.
